@@ -81,11 +81,20 @@ type implNoCtx struct{ ran []string }
 func (i *implNoCtx) PingE() error            { i.ran = append(i.ran, "PingE"); return nil }
 func (i *implNoCtx) AddV(a int) (int, error) { i.ran = append(i.ran, "AddV"); return a + 1, nil }
 func (i *implNoCtx) AdminN(s string) error   { i.ran = append(i.ran, "AdminN"); return nil }
+func (i *implNoCtx) SumV(xs ...int) (int, error) {
+	i.ran = append(i.ran, "SumV")
+	t := 0
+	for _, x := range xs {
+		t += x
+	}
+	return t, nil
+}
 
 type proxyNoCtx struct {
-	PingE  func() error           `perm:"read"`
-	AddV   func(int) (int, error) `perm:"write"`
-	AdminN func(string) error     `perm:"admin"`
+	PingE  func() error              `perm:"read"`
+	AddV   func(int) (int, error)    `perm:"write"`
+	AdminN func(string) error        `perm:"admin"`
+	SumV   func(...int) (int, error) `perm:"write"` // a variadic method: ordinary Go, accepted at construction
 }
 
 // RunNoCtx: methods without a leading context (supported signatures of the library) behind the permissioned
@@ -95,7 +104,7 @@ func RunNoCtx(d *fw.Driver, res *fw.Result) error {
 		im := &implNoCtx{}
 		var px proxyNoCtx
 		auth.PermissionedProxy(universe, defaults, im, &px)
-		for _, c := range []struct{ name, required string }{{"PingE", "read"}, {"AddV", "write"}, {"AdminN", "admin"}} {
+		for _, c := range []struct{ name, required string }{{"PingE", "read"}, {"AddV", "write"}, {"AdminN", "admin"}, {"SumV", "write"}} {
 			im.ran = nil
 			var err error
 			val := 0
@@ -113,6 +122,8 @@ func RunNoCtx(d *fw.Driver, res *fw.Result) error {
 					val, err = px.AddV(41)
 				case "AdminN":
 					err = px.AdminN("x")
+				case "SumV":
+					val, err = px.SumV(20, 21, 1)
 				}
 			}()
 			ran := len(im.ran) == 1 && im.ran[0] == c.name
@@ -137,7 +148,7 @@ func RunNoCtx(d *fw.Driver, res *fw.Result) error {
 				mon = "the defaults lack the permission but the method ran"
 			case !holds && err == nil:
 				mon = "permission missing but no error returned"
-			case holds && (err != nil || (c.name == "AddV" && val != 42)):
+			case holds && (err != nil || ((c.name == "AddV" || c.name == "SumV") && val != 42)):
 				mon = fmt.Sprintf("permitted call returned (%d, %v)", val, err)
 			}
 			res.Count(fmt.Sprintf("perm.noctx.ran=%v", ran))
